@@ -3,7 +3,7 @@ BASEGRAPH_INCLUDE ?= /repo/include
 B ?= $(CURDIR)/build
 STD ?= -std=c++17
 COMMON := -I$(BASEGRAPH_INCLUDE) -Isim -pthread -MMD -MP -w
-WRAP := -static-libstdc++ -Wl,--wrap=fopen64,--wrap=read,--wrap=write,--wrap=writev -pthread
+WRAP := -static-libstdc++ -Wl,--wrap=fopen64,--wrap=read,--wrap=write,--wrap=writev,--wrap=lseek64 -pthread
 
 CONFIGS := g2 g0 gd ca c2 g14 ts
 QUICK_CONFIGS := g2 gd ca ts
